@@ -924,6 +924,8 @@ class RealSide:
             loader = retort.get_loader(cls)
         except self.ProviderNotFoundError:
             return {"r": "no_loader"}
+        except Exception as e:
+            return {"r": "exception", "cls": type(e).__name__, "msg": "get_loader: " + str(e)[:120]}
         try:
             obj = loader(data)
         except self.LoadError as e:
@@ -937,6 +939,8 @@ class RealSide:
             v = retort.get_loader(tp)(datum)
         except self.LoadError:
             return None
+        except Exception:
+            return None
         return jtext(view(ty, v, kind, lm))
 
     def dump(self, retort, cls, obj):
@@ -944,6 +948,8 @@ class RealSide:
             dumper = retort.get_dumper(cls)
         except self.ProviderNotFoundError:
             return {"r": "no_dumper"}
+        except Exception as e:
+            return {"r": "exception", "cls": type(e).__name__, "msg": "get_dumper: " + str(e)[:120]}
         try:
             data = dumper(obj)
         except Exception as e:
